@@ -576,7 +576,12 @@ Proof.
 Qed.
 
 Lemma sc_roundtrip_native8 ws : fits 1 ws -> sc_decode ENative8 (length ws) (sc_encode ENative8 ws) = ws.
-Proof. intros H. cbn [sc_decode sc_encode]. now apply unbytes_bytes'. Qed.
+Proof.
+  intros H. cbn [sc_decode sc_encode].
+  destruct (Nat.even (length (flat_map (le_bytes 1) ws))).
+  - now apply unbytes_bytes'.
+  - now apply unbytes_bytes.
+Qed.
 Lemma sc_roundtrip_native16 ws : fits 2 ws -> sc_decode ENative16 (length ws) (sc_encode ENative16 ws) = ws.
 Proof. intros H. cbn [sc_decode sc_encode]. now apply unbytes_bytes'. Qed.
 
